@@ -91,12 +91,16 @@ def parse_arms(block):
 
 def fn_body(src, sig_regex):
     m = re.search(sig_regex, src)
+    if not m:
+        raise ValueError("function not found: %s" % sig_regex)
     b = src.index("{", m.end() - 1)
     return src[b + 1:match_brace(src, b) - 1]
 
 
 def match_block(body, head_regex):
     m = re.search(head_regex, body)
+    if not m:
+        raise ValueError("unrecognised function body (expected a `%s {..}` over all constructors): %s" % (head_regex, body[:300]))
     b = body.index("{", m.end() - 1)
     return body[b + 1:match_brace(body, b) - 1]
 
